@@ -255,7 +255,7 @@ def main():
             if pos.startswith("result"):
                 results.append(result_case(c, k, client, methods, sm, pkg, loop, is_async, RESULT, val))
                 continue
-            opname = {"var": "OpV_", "field": "OpF_", "nested": "OpN_", "sub_var": "OpSV_", "sub_field": "OpSF_"}[pos] + k
+            opname = {"var": "OpV_", "field": "OpF_", "nested": "OpN_", "recursive": "OpRc_", "sub_var": "OpSV_", "sub_field": "OpSF_"}[pos] + k
             if c.get("dflt"):
                 opname = {"var": "OpVD_", "sub_var": "OpSVD_"}[pos] + k
             is_sub = pos.startswith("sub")
@@ -267,6 +267,12 @@ def main():
             if pos == "var":
                 if state != "omitted":
                     kwargs["a"] = val
+            elif pos == "recursive":
+                rec_cls = getattr(it, f"Rec_{k}")
+                leafholder = rec_cls() if state == "omitted" else rec_cls(a=val)
+                req = w in ("T!", "[T]!", "[T!]!")          # a required field has to be given on every link of the chain
+                link = (lambda nxt: rec_cls(a=caller_value(w, "val", kind, pkg, sm), next=nxt)) if req else (lambda nxt: rec_cls(next=nxt))
+                kwargs["r"] = link(link(leafholder))
             else:
                 fin_cls = getattr(it, f"FIn_{k}")
                 fin = fin_cls() if state == "omitted" else fin_cls(a=val)
@@ -303,6 +309,13 @@ def main():
                 if pos == "var":
                     present = "a" in variables
                     wire = variables.get("a")
+                elif pos == "recursive":
+                    holder = (((variables.get("r") or {}).get("next") or {}).get("next") or {})
+                    present = "a" in holder
+                    wire = holder.get("a")
+                    chain_keys = {"next", "a"} if w in ("T!", "[T]!", "[T!]!") else {"next"}
+                    if set(variables.get("r") or {}) != chain_keys or set((variables.get("r") or {}).get("next") or {}) != chain_keys:
+                        present, wire = True, "@unset-fields-of-the-chain-were-sent"
                 elif pos == "field":
                     present = "a" in (variables.get("i") or {})
                     wire = (variables.get("i") or {}).get("a")
@@ -320,6 +333,9 @@ def main():
                 else:
                     if pos == "var":
                         got_present, got = "a" in kw, kw.get("a")
+                    elif pos == "recursive":
+                        holder = (((kw.get("r") or {}).get("next") or {}).get("next") or {})
+                        got_present, got = "a" in holder, holder.get("a")
                     elif pos == "field":
                         got_present, got = "a" in (kw.get("i") or {}), (kw.get("i") or {}).get("a")
                     else:
